@@ -7,7 +7,9 @@ import vlib, gen, strgen
 import codes_common as CC
 
 THEOREMS = ['C07_no_space', 'C07_refuses', 'C07_accepts_only_codes', 'C07_only_value_error', 'C07_relay_shape',
-            'normTz_spec', 'strip_last', 'C07_norm_kinds_end']
+            'normTz_spec', 'strip_last', 'C07_norm_kinds_end',
+            'pyMatch_event_code', 'C07_accepts_iff_language', 'C07_accepts_iff_family', 'C07_refused_iff_not_code']
+LEAN_MODULES = ['AthlibVerif.Oblig.C07.Tie', 'AthlibVerif.Props.C07']
 
 SPEC_CODES = ['100', '60H', '110H', '400H84.0cm', '3000SC', '2000SC76.2cm', 'HJ', 'PV', 'LJ', 'TJ', 'SP7.26K', 'SP4K', 'DT1.5K', 'DT1K', 'HT7.26K',
               'JT800', 'JT600', 'WT15.88K', 'WT9.08K', '4x100', '4x400', '3x800', 'MILE', 'MAR', 'HM', '5K', '10K', '20KW', '3000W', '5M', 'DEC', 'HEP',
@@ -45,10 +47,10 @@ def run(ctx):
     g = gen.regex(ctx, ['PAT_EVENT_CODE', 'PAT_RELAYS'] + CC.FAMILIES)
     if g is None: return
     side, alpha, trees, mod, changed = g
-    ok, log, failed = ctx.build(['AthlibVerif.Props.C07'])
+    ok, log, failed = ctx.build(LEAN_MODULES)
     if ok:
         ctx.audit(['AthlibVerif.Props.C07'], ['AthlibVerif.Props.C07.' + n for n in THEOREMS])
-        if not ctx.quick(): ctx.leanchecker(['AthlibVerif.Props.C07'])
+        if not ctx.quick(): ctx.leanchecker(['AthlibVerif.Props.C07', 'AthlibVerif.Lemmas.MatchSound', 'AthlibVerif.Lemmas.MatchTie'])
     vlib.use_repo()
     import athlib
     from athlib import codes
